@@ -45,7 +45,7 @@ pub enum Ty {
     TrueType,
 }
 
-#[derive(Clone, Debug)]
+#[derive(Clone, Debug, PartialEq)]
 enum Step {
     Field(usize),
     Index(usize),
@@ -724,6 +724,10 @@ impl<'u> Sem<'u> {
     }
 
     fn assign(&mut self, op: &str, p: &Place, r: &Ex) -> R<V> {
+        // C++ arrays are not assignable (HLSL arrays are values)
+        if self.d == Dialect::Msl && matches!(p.ty, Ty::Array(..)) {
+            return bad("assignment to an array");
+        }
         let (rv, rt) = self.eval(r)?;
         let new = if op == "=" {
             self.convert(&rv, &rt, &p.ty, false)?
@@ -1203,9 +1207,20 @@ impl<'u> Sem<'u> {
             Alias(Place),
         }
         let mut bound = Vec::new();
+        let mut decayed_here: Vec<(String, V)> = Vec::new();
         for (i, p) in f.params.iter().enumerate() {
             let pt = self.with_dims(self.ty(&p.ty)?, &p.dims);
             match (args.get(i), p.mode) {
+                (Some(a), Mode::In) if self.d == Dialect::Msl && !p.dims.is_empty() && self.place(a)?.is_some() => {
+                    // a C++ parameter of array type is a pointer to the argument's first element: the callee works on
+                    // the caller's array (HLSL passes a copy)
+                    // (modelled as a copy that must come back unchanged: a function that writes such a parameter
+                    // would write the caller's array, which the source language does not do)
+                    let (v, t) = self.eval(a)?;
+                    let v = self.convert(&v, &t, &pt, false)?;
+                    decayed_here.push((p.name.clone(), v.clone()));
+                    bound.push((pt.clone(), Bound::Value(v)));
+                }
                 (Some(a), Mode::In) => {
                     let (v, t) = self.eval(a)?;
                     bound.push((pt.clone(), Bound::Value(self.convert(&v, &t, &pt, false)?)));
@@ -1293,7 +1308,17 @@ impl<'u> Sem<'u> {
             self.ret_stack.push(ret_ty.clone());
             self.ns_stack.push(namespace_of(&f.name));
             self.this_stack.push(this.clone());
-            let r = self.block(&f.body);
+            let mut r = self.block(&f.body);
+            if r.is_ok() {
+                for (pname, before) in &decayed_here {
+                    if let Some(pl) = self.scopes.last().and_then(|s| s.get(pname)).cloned() {
+                        let after = self.read(&pl)?;
+                        if !same(before, &after) {
+                            r = bad("a by-value array parameter is written: the C++ array parameter is a pointer to the caller's array");
+                        }
+                    }
+                }
+            }
             self.this_stack.pop();
             self.ns_stack.pop();
             self.ret_stack.pop();
